@@ -3,12 +3,13 @@ from tools import coll, vlib
 
 
 class C10(vlib.Spec):
-    model_vo = ["theories/Coll/ModelVC.vo"]
+    model_vo = ["theories/Coll/ModelVC.vo", "theories/Coll/ModelVar.vo"]
     props_vo = "theories/Props/C10.vo"
     theorems = ["C10_history", "C10_spec_is_multiset", "C10_set_equality", "C10_counted_equality",
-                "C10_duplicate_counted", "C10_holds_b_sound"]
+                "C10_duplicate_counted", "C10_holds_b_sound", "C10_variadic_tuple_ops",
+                "C10_split_by_suffix_roundtrip"]
     crate, group, binary = "h_coll", "light", "h_coll"
-    imports = "From HV Require Import Coll.ModelVC."
+    imports = "From HV Require Import Coll.ModelVC Coll.ModelVar."
     harness_shards = 4
     trusted_base = ["coqc 8.16.1 kernel (vm_compute used for case evaluation only)",
                     "hand-written Gallina model coq/theories/Coll/ModelVC.v (hashbrown's HashTable is modelled "
@@ -22,35 +23,39 @@ class C10(vlib.Spec):
             "(set / counted / column, arity 2-4, value domains 2..40): insert, extend (batches 0-64, mostly onto "
             "non-empty collections), contains, get, len, is_empty, iter, into_iter, drain, ==; the observation of every "
             "op is compared with the Coq model and with the abstract multiset; non-trivial = at least one mutation and "
-            "one observation; distinct = distinct case JSON")
+            "one observation; distinct = distinct case JSON; plus cases for the tuple-list operations of variadics/src/lib.rs "
+            "(extend, reverse, LEN, Split / SplitBySuffix at every length, HomogenousVariadic get/into_iter, into_option, "
+            "eq/eq_ref, VecVariadic push/zip_vecs/get/drain) on u32 variadics of arity 1-4")
 
     def gen(self, rng, tier, n):
-        return coll.gen_vc(rng, tier, n)
+        return coll.gen_c10(rng, tier, n)
 
     def n_cases(self, tier):
         return 320 if tier == "quick" else 4000
 
     def to_coq(self, case, res):
-        return coll.vc_term(case, res)
+        return coll.c10_term(case, res)
 
     def shrink(self, case):
-        return coll.shrink_vc(case)
+        return coll.shrink_vc(case) if case.get("k") == "vc" else []
 
     def finding_key(self, case, res):
         return coll.vc_finding_key(case, res)
 
     def nontrivial(self, case, res):
-        return coll.vc_nontrivial(case, res)
+        return coll.vc_nontrivial(case, res) if case.get("k") == "vc" else True
 
     def describe(self, case, res):
         c = dict(case)
+        if c.get("k") != "vc":
+            return {"case": c, "impl": res}
         if len(c["ops"]) > 12:
             c = dict(c, ops=c["ops"][:12], ops_truncated_from=len(case["ops"]))
         r = res if "ans" not in res else {"ans": res["ans"][:12]}
         return {"case": c, "impl": r}
 
     def distribution(self, cases, results):
-        return coll.vc_distribution(cases, results)
+        return coll.c10_distribution(cases, results)
 
 
 def main(ctx):
